@@ -64,6 +64,9 @@ func PutStream(ctx context.Context, store WritableStorage) (io.Writer, func(key 
 			return fmt.Errorf("WriteCommitter already used")
 		}
 		written = true
+		if key == "" {
+			return nil // the zero key means "store nothing", as for native StreamingWritableStorage implementations
+		}
 		return store.Put(ctx, key, buf.Bytes())
 	}, nil
 }
